@@ -33,7 +33,24 @@ func init() {
 	// C10 protocol: a Reset starts from nothing (no buffered operations or scratch carried over)
 	register("C10", func(c *Ctx) { only(c, ruleC17, "C17.1") })
 	// C15 gradient paint: drawn over the target rectangle from source point (0,0)
-	register("C15", func(c *Ctx) { only(c, ruleC16, "C16.1") })
+	register("C15", func(c *Ctx) {
+		only(c, ruleC16, "C16.1")
+		only(c, ruleC06, "C06.0") // the pixel->viewBox map the gradient matrix is composed with
+	})
+	// C16 pixel invariances: the geometry follows the rectangle held at that point; a gradient kept in any registers
+	// (wrapping past 63 included) is painted like the same gradient kept elsewhere
+	register("C16", func(c *Ctx) {
+		only(c, ruleC06, "C06.0")
+		only(c, ruleC15_6, "C15.6")
+	})
+	// C01 round trip: the reader's side of every number form (value formulas per byte length)
+	register("C01", func(c *Ctx) { only(c, ruleC03_2, "C03.2") })
+	// C09 colours: every colour-carrying opcode (all ADJ values, the incrementing form) is decoded, and the Encoder's
+	// byte for it is the one the decoder reads back
+	register("C09", func(c *Ctx) {
+		only(c, ruleC03_1, "C03.1")
+		only(c, ruleC01_3, "C01.3")
+	})
 	// C17 no state across Reset: the rasteriser is cleared at every path start
 	register("C17", func(c *Ctx) { only(c, ruleC16, "C16.1") })
 	// C19 "the spread given is the one rendered": the spread's clamp
